@@ -183,6 +183,12 @@ fn build_message(tree: &Tree, intents: &[Intent], prev_msg_path: &[usize]) -> (M
     (Msg { lead_ws: B::default(), units, ws_units, ending }, expected, res.path)
 }
 
+/// The message a list of intents denotes on `tree` (used by C01 as a source of
+/// headers that reach handlers).
+pub fn message_for(tree: &Tree, intents: &[Intent]) -> Msg {
+    build_message(tree, intents, &[]).0
+}
+
 fn has_anonymous_default(nodes: &[TNode]) -> bool {
     nodes.iter().any(|n| (n.name().is_empty() && n.is_default()) || has_anonymous_default(n.children()))
 }
